@@ -2421,7 +2421,12 @@ def add_row_margin(
     pd.DataFrame
         DataFrame with an additional 'All' row containing the aggregated values.
     """
-    from pandas.core.reshape.util import cartesian_product
+    try:
+        from pandas.core.reshape.util import cartesian_product
+    except ImportError:  # private helper, removed in pandas 3
+
+        def cartesian_product(arrays):
+            return [g.ravel() for g in np.meshgrid(*arrays, indexing="ij")]
 
     data = data.sort_index()
     index = data.index
